@@ -391,6 +391,23 @@ func runSched(c *core.Case, st *core.CaseStats, seed int64, sched [][]int) {
 			i += sz
 		}
 	}
+	// the queries of one trie share whatever the implementation keeps between calls: before the queries of the property
+	// under test, the other family is called on the same text (and on the previous one), results ignored here
+	switch variant % 3 {
+	case 0:
+		if prop == "C05" {
+			core.Guard(func() { t.ReplaceWithMask(in, '*'); t.Replace(in, "#") })
+		} else {
+			core.Guard(func() { t.FindAll(in); t.Match(in) })
+		}
+	case 1:
+		if prop == "C05" {
+			core.Guard(func() { t.Replace(lastText, "") })
+		} else {
+			core.Guard(func() { t.FindAll(lastText) })
+		}
+	}
+	lastText = in
 	if prop == "C05" {
 		var m bool
 		if guard("Match", func() { m = t.Match(in) }) && (m != o.Match) && (allAligned || m) {
@@ -497,6 +514,8 @@ func runSched(c *core.Case, st *core.CaseStats, seed int64, sched [][]int) {
 		}
 	}
 }
+
+var lastText string
 
 // mask runes on the boundaries of the UTF-8 encoding lengths
 var maskPool = []rune{0x00, 0x7F, 0x80, 0x81, 0xFF, 0x7FF, 0x800, 0xD7FF, 0xE000, 0xFFFD, 0xFFFF, 0x10000, 0x10FFFF, '#'}
